@@ -958,6 +958,8 @@ def r10(cx):
                 n = pp.callee(t)
                 if n.endswith(' as yash_arith::env::Env>::get_variable') and n.startswith('<yash_semantics::') and n in F.by_root:
                     todo.append(n)
+                elif n in F.by_root and (F.fns.get(n) or {}).get('file') == b.file and ((F.fns.get(n) or {}).get('vis') or 'pub') != 'pub':
+                    todo.append(n)          # a non-public helper of the adapter's source file (`fn computed(&self, name)`)
     cx.site('%s evaluates with %s; get_variable (%d impl(s) followed) uses Variable::expand: %s, raw get_scalar reads: %d; $x uses '
             'Variable::expand in %s' % (body.fn, envty, len(seen), aware, len(raw), ref[0].fn))
     if not aware:
@@ -1448,3 +1450,241 @@ def r15(cx):
 
 
 RS.explanation += ' The left operand of a non-assigning binary operator is converted to a value before the right operand is evaluated (R15).'
+
+
+# ---------------------------------------------------------------------------------------
+# added after seed wave 5 (C03-s9: constant-operand fast path in eval calling binary_result with the run-time operator;
+# C03-s10: QuirkVarEnv answering a repeated read from its cache without looking at the variable)
+def _binop_const_variant(du, operand):
+    """The BinaryOperator variant an operand is a compile-time constant of (`BinaryOperator::LogicalOr`), else None."""
+    o = du.origin(operand)
+    if o.get('k') == 'ref':
+        o = du.origin_place(o['pl'])
+    if o.get('k') == 'agg' and o['rv'].get('ak') == 'adt' and (o['rv'].get('adt') or '').endswith('ast::BinaryOperator'):
+        return o['rv']['variant']
+    if o.get('k') == 'const':
+        m = re.search(r'BinaryOperator::(\w+)', str(o['o'].get('c') or ''))
+        if m:
+            return m.group(1)
+    return None
+
+
+def _operator_tests(F, body, du):
+    """Every test of a BinaryOperator in `body`: ({block: {target: labels}} for switches on its discriminant,
+    {block: (variant, is_eq, {target: labels})} for `operator == / != <constant variant>`)."""
+    switches, tests = {}, {}
+    for u in sorted(body.live_blocks()):
+        ec = Q.edge_condition(F, body, du, u)
+        if not ec:
+            continue
+        if ec[0]['k'] == 'discr' and (ec[0].get('ty') or '').lstrip('&').replace('mut ', '').strip().endswith('ast::BinaryOperator'):
+            switches[u] = ec[1]
+            continue
+        org, flip = ec[0], False
+        for _ in range(3):
+            if org.get('k') == 'unop' and org['rv'].get('op') == 'Not':
+                org, flip = du.origin(org['rv']['o']), not flip
+        if org.get('k') != 'call' or not Q.callee_is(org['t'], [re.compile(r'PartialEq.*::(eq|ne)$')]) or len(org['t']['a']) != 2 or \
+                not all(x.lstrip('&').strip().endswith('ast::BinaryOperator') for x in org['t'].get('at', ['?'])):
+            continue
+        consts = [_binop_const_variant(du, a) for a in org['t']['a']]
+        if sum(1 for c in consts if c is not None) != 1:
+            continue
+        is_eq = Q.callee_is(org['t'], [re.compile(r'PartialEq.*::eq$')])
+        tests[u] = ([c for c in consts if c is not None][0], is_eq != flip, ec[1])
+    return switches, tests
+
+
+def _edges_not_taken_by(v, switches, tests):
+    removed = set()
+    for u, labels in switches.items():
+        for tgt, labs in labels.items():
+            if ('variant', v) not in labs:
+                removed.add((u, tgt))
+    for u, (cst, is_eq, labels) in tests.items():
+        for tgt, labs in labels.items():
+            if ('bool', (v == cst) == is_eq) not in labs:
+                removed.add((u, tgt))
+    return removed
+
+
+@RS.rule('C03.R17', 'K-GUARD', 'binary_result (which computes `=` as the right operand and `op=` as the plain operator, without any lvalue test) '
+         'receives an assignment operator only behind require_variable: at every call site, for every assignment variant the operator '
+         'argument can hold there, each path from the entry of the caller passes the lvalue test - `$((1 = 2))`, `$((3 += 4))` are errors')
+def r17(cx):
+    F = cx.F
+    BR = EVAL + 'binary_result'
+    RV = EVAL + 'require_variable'
+    cx.require(BR in F.fns and RV in F.fns, 'binary_result / require_variable not found in yash_arith::eval')
+    cx.require((F.fns[BR].get('vis') or '') != 'pub', 'binary_result became public: its callers can no longer be enumerated')
+    inputs = F.fns[BR]['inputs']
+    opi = [i for i, ty in enumerate(inputs) if ty.lstrip('&').strip().endswith('ast::BinaryOperator')]
+    cx.require(len(opi) == 1, 'binary_result no longer takes exactly one BinaryOperator')
+    variants = [v['name'] for v in F.adts[BINOP]['variants']]
+    cx.require(ASSIGNING <= set(variants), 'BinaryOperator lost an assignment variant (update ASSIGNING)')
+    # the assignment variants are the ones binary_result computes WITHOUT assigning: those sharing an arm with a base operator, and Assign
+    from facts import same_module_private
+
+    def calls_direct(fn, what):
+        return any(Q.find_calls(b, [what]) for b in F.logical(fn)) if fn in F.by_root else False
+
+    def is_op_ty(ty):
+        return (ty or '').replace('&mut ', '').lstrip('&').strip().endswith('ast::BinaryOperator')
+
+    work = [('call', BR, opi[0], frozenset(ASSIGNING))]
+    done = set()
+    n = 0
+    while work:
+        kind, callee, argi, vs = work.pop()
+        if (kind, callee, argi) in done:
+            continue
+        done.add((kind, callee, argi))
+        if kind == 'call':
+            holders = {b.fn: b for b, _, _ in F.callers_of(lambda names, t, _c=callee: _c in names) if '::tests' not in b.fn}
+        else:
+            # a closure that computes with a captured operator: the obligation lies where the closure is made
+            parent = F.bodies.get(callee.rsplit('::{closure', 1)[0])
+            cx.require(parent is not None, 'the function creating the closure %s was not found' % callee)
+            holders = {parent.fn: parent}
+        for body0 in sorted(holders.values(), key=lambda b: b.fn):
+            _acc = same_module_private(F, body0.root)
+            # guard helpers (`fn is_assignment(op) -> bool`, a wrapper of require_variable that returns its result) are analysed in
+            # place; a function that itself calls binary_result / the callee under analysis stays a call and is judged on its own
+            body = F.inlined(body0, accept=lambda c, _a=_acc: c not in (BR, RV, callee) and _a(c) and not calls_direct(c, BR)
+                             and (kind != 'call' or not calls_direct(c, callee)))
+            du = Q.DefUse(body)
+            cx.fn(body.fn)
+            switches, tests = _operator_tests(F, body, du)
+            guards = {blk for blk, t in Q.find_calls(body, [RV])}
+            sites = []
+            if kind == 'call':
+                sites = [(blk, t, t['a'][argi]) for blk, t in Q.find_calls(body, [callee]) if len(t['a']) > argi]
+            else:
+                for blk, j, st in body.stmts():
+                    if st['k'] == 'assign' and st['rv']['k'] == 'agg' and st['rv'].get('ak') == 'closure' and st['rv'].get('def') == callee:
+                        ops = [o for o in st['rv'].get('ops', []) if Q.operand_local(o) is not None and
+                               is_op_ty(body.locals[Q.operand_local(o)].get('ty'))]
+                        sites.append((blk, st, ops[0] if len(ops) == 1 else None))
+            for blk, node, opnd in sites:
+                n += 1
+                cv = _binop_const_variant(du, opnd) if opnd is not None else None
+                cand = sorted(vs & {cv}) if cv is not None else sorted(vs)
+                bad, wit = [], None
+                for v in cand:
+                    p = Q.shortest_path_flags(F, body, du, 0, {blk}, removed=guards, removed_edges=_edges_not_taken_by(v, switches, tests))
+                    if p is not None:
+                        bad.append(v)
+                        wit = wit or p
+                cx.site('%s: %s %s with operator %s at %s: assignment variants arriving without the lvalue test: %s'
+                        % (body.fn, 'call of' if kind == 'call' else 'creation of closure', callee.split('::', 2)[-1],
+                           ('const ' + cv) if cv else (Q.operand_name(body, du, opnd) if opnd is not None else '?'),
+                           body.loc(node), bad or 'none'))
+                if not bad:
+                    continue
+                o = du.origin(opnd) if opnd is not None else {'k': '?'}
+                if o.get('k') == 'ref':
+                    o = du.origin_place(o['pl'])
+                is_closure = '::{closure' in body0.fn and body0.fn != F.main_body(body0.root).fn
+                sig = F.fns.get(body0.root) or {}
+                # the operator is a parameter of a private function: the obligation moves to that function's callers
+                if not is_closure and o.get('k') == 'arg' and (sig.get('vis') or 'pub') != 'pub' and body0.root != callee and \
+                        F.callers_of(lambda names, t2, _c=body0.root: _c in names):
+                    work.append(('call', body0.root, o['l'] - 1, frozenset(bad)))
+                    continue
+                # the operator is a variable captured by a closure: the obligation moves to the place the closure is made
+                if is_closure and o.get('k') == 'place' and o['pl'].get('l') == 1:
+                    work.append(('closure', body0.fn, None, frozenset(bad)))
+                    continue
+                cx.violation(body.fn, 'assignment-operator-computed-without-lvalue-test',
+                             'binary_result is called here with an operator that can be an assignment (%s) on a path that has not passed '
+                             'require_variable: binary_result computes `=` as the right operand and `op=` as the plain operator, so '
+                             '`$((1 = 2))` yields 2 and `$((3 += 4))` yields 7 instead of the error "assignment to a non-variable"'
+                             % (', '.join(bad[:3]) + (' ...' if len(bad) > 3 else '')), loc=body.loc(node),
+                             path=Q.render_path(body, wit) if wit else None)
+    cx.floor(n, 4, 'call sites of binary_result (two in apply_binary, the || and && arms of eval)')
+
+
+ENV_GET = re.compile(r' as yash_arith::env::Env>::get_variable$')
+VARSET_LOOKUP = [re.compile(r'^yash_env::variable::VariableSet::(get|get_scalar)$')]
+CELL_TY = re.compile(r'(^|[<\s(,&])(core::cell::|std::sync::|core::sync::atomic::|std::cell::|once_cell::|alloc::rc::Rc<core::cell::)')
+
+
+def _result_loc(body, path):
+    """Where the result returned at the end of `path` is written (the last write of the return place on the path)."""
+    for blk in reversed(path):
+        t = body.term(blk)
+        if t['k'] == 'call' and t['dest']['l'] == 0:
+            return body.loc(t)
+        for st in reversed(body.blocks[blk]['s']):
+            if st['k'] == 'assign' and st['lhs']['l'] == 0:
+                return body.loc(st)
+    return body.loc(body.d)
+
+
+@RS.rule('C03.R18', 'K-PASS', 'every read of a variable by the arithmetic evaluator looks at the shell variable now: in each Env::get_variable of the '
+         'expansion glue every returning path passes a look-up of the variable set made in THIS call (VariableSet::get / get_scalar, or a '
+         'delegate get_variable that does), and the adapter\'s own state kept between calls (a cell field of Self) is only touched after '
+         'the variable was expanded (Variable::expand) in this call - `$((LINENO++ + LINENO))` re-reads LINENO after the assignment')
+def r18(cx):
+    F = cx.F
+    roots = sorted(k for k, bs in F.by_root.items() if ENV_GET.search(k) and bs[0].crate != 'yash_arith' and '::tests' not in k)
+    cx.require(roots, 'no implementation of yash_arith::Env::get_variable outside yash-arith')
+    n_cells = 0
+    for root in roots:
+        body0 = F.main_body(root)
+        from facts import same_module_private
+        _acc = same_module_private(F, root)
+        # helpers: non-public functions of the same source file (an inherent method of the adapter, a free function of the module)
+        def _helper(c, _a=_acc, _file=body0.file):
+            sig = F.fns.get(c)
+            if sig is None or (sig.get('vis') or 'pub') == 'pub' or ENV_GET.search(c):
+                return False
+            return _a(c) or sig.get('file') == _file
+        body = F.inlined(body0, accept=_helper)
+        cx.fn(body.fn)
+        lookups = {blk for blk, t in body.calls() if Q.callee_is(t, VARSET_LOOKUP)}
+        delegates = {blk for blk, t in body.calls() if any(ENV_GET.search(x) and x in roots and x != root for x in Q.callee_names(t))}
+        thr = lookups | delegates
+        p = None if 0 in thr else body.shortest_path(0, set(body.return_blocks()), removed=thr)
+        cx.site('%s: variable-set look-ups %d, delegating get_variable calls %d; every returning path passes one: %s'
+                % (root, len(lookups), len(delegates), p is None))
+        if p is not None:
+            cx.violation(root, 'value-returned-without-looking-up-the-variable', 'get_variable can return without having looked the variable up in '
+                         'the variable set during this call: a value remembered from an earlier read is returned although the expression has '
+                         'assigned the variable in between (`$((LINENO++ + LINENO))` gives 2 on line 1 instead of 3; `$((++LINENO * ++LINENO))` '
+                         'computes the second increment from the stale value)', loc=_result_loc(body, p), path=Q.render_path(body, p))
+        # state of the adapter that survives the call: interior-mutable fields of Self (get_variable takes &self)
+        m = re.match(r'^<([\w:]+)', root)
+        adt = F.adts.get(m.group(1)) if m else None
+        cells = set()
+        if adt is not None:
+            for v in adt['variants']:
+                for f in v['fields']:
+                    if CELL_TY.search(f['ty']):
+                        cells.add(f['name'])
+        if not cells:
+            continue
+        expands = {blk for blk, t in Q.find_calls(body, VAR_EXPAND)}
+        dom_ok = lambda blk: any(e != blk and body.dominates(e, blk) for e in expands)
+        for blk, j, st in body.stmts():
+            if st['k'] != 'assign':
+                continue
+            for pl in Q.rvalue_places(st['rv']):
+                fs = [x for x in (pl.get('p') or []) if isinstance(x, dict) and x.get('f') in cells and x.get('adt') == adt['path']]
+                if not fs:
+                    continue
+                n_cells += 1
+                ok = dom_ok(blk)
+                cx.site('%s: state kept between calls (%s.%s) touched at %s after Variable::expand of this call: %s'
+                        % (root, adt['path'].split('::')[-1], fs[0]['f'], body.loc(st), ok))
+                if not ok:
+                    cx.violation(root, 'kept-state-used-before-expanding-the-variable:%s' % fs[0]['f'], 'the value the adapter keeps between calls '
+                                 '(%s) is consulted before the variable has been expanded in this call, so whether the variable still has a '
+                                 'computed value (the quirk is removed by an assignment) is not re-checked: after `LINENO++` a second read of '
+                                 'LINENO in the same expression returns the remembered line number' % fs[0]['f'], loc=body.loc(st))
+    cx.floor(n_cells, 1, 'uses of adapter state kept between get_variable calls (QuirkVarEnv::computed_value)')
+
+
+RS.explanation += (' binary_result is reached with an assignment operator only behind require_variable, at every call site and through private '
+                   'forwarding helpers (R17); every Env::get_variable of the expansion glue looks the variable up in the variable set on every '
+                   'returning path and touches its remembered value only after expanding the variable in the same call (R18).')
